@@ -69,6 +69,36 @@ def run_case(case, pname, variant, occ=0):
                 problems.append('isunique %r, spec %r' % (got, case['isunique']))
         except Exception as e:
             problems.append('isunique raised %r' % (e,))
+    # the key SPELLED differently (field indices - index 0 is falsy -, one-element tuple / list)
+    if key is not None and not kw.get('presorted'):
+        for sp in ({'k': [0, ('k',), [0]], 'kv': [(0, 1), ['k', 'v'], ('k', 1)]}[case['key']]):
+            expect('duplicates(key=%r)' % (sp,), lambda: rows_of(etl.duplicates(t, key=sp, **kw)), case['dup'])
+            expect('unique(key=%r)' % (sp,), lambda: rows_of(etl.unique(t, key=sp, **kw)), case['uniq'])
+            expect('distinct(key=%r)' % (sp,), lambda: rows_of(etl.distinct(t, key=sp, **kw)), case['dist'])
+            try:
+                got = rows_of(etl.distinct(t, key=sp, count='n', **kw), hdr=('k', 'v', 'n'))
+                if sorted((tuple(prof.absrow(r[:2])), r[2]) for r in got) != sorted(zip(map(tuple, case['dist']), case['counts'])):
+                    problems.append('distinct(key=%r, count) delivered %r, spec %r counts %r' % (sp, got, case['dist'], case['counts']))
+                if not kw and etl.isunique(t, sp) != case['isunique']:
+                    problems.append('isunique(key=%r) %r, spec %r' % (sp, etl.isunique(t, sp), case['isunique']))
+            except Exception as e:
+                problems.append('distinct(key=%r, count) / isunique raised %r' % (sp, e))
+    if case['key'] == 'k' and not kw:
+        # include / exclude given as ONE field name (a string) while another field's name is a substring of it
+        try:
+            t3 = [['k', 'v', 'vx', u'']] + [list(r) + [7, 8] for r in t[1:]]
+            base = [tuple(r) for r in etl.conflicts(t, 'k')][1:]
+            for label, ckw, want in (("conflicts(include='vx')", {'include': 'vx'}, []),
+                                     ("conflicts(exclude='vx')", {'exclude': 'vx'}, [r + (7, 8) for r in base]),
+                                     ("conflicts(include='v')", {'include': 'v'}, [r + (7, 8) for r in base]),
+                                     ("conflicts(exclude='v')", {'exclude': 'v'}, []),
+                                     ("conflicts(include=('vx', ''))", {'include': ('vx', u'')}, []),
+                                     ("conflicts(exclude=['v'])", {'exclude': ['v']}, [])):
+                got = [tuple(r) for r in etl.conflicts(t3, 'k', **ckw)][1:]
+                if got != want:
+                    problems.append('%s on fields (k, v, vx, \'\') delivered %r, spec %r' % (label, got, want))
+        except Exception as e:
+            problems.append('conflicts(include/exclude) raised %r' % (e,))
     if case['key'] == 'k':
         # missing=None (default) and missing=<the value abstract 1> (an equal but possibly distinct representative)
         for label, mkw, fa, fs in (('conflicts', {}, 'callowed', 'cscan'),
@@ -235,7 +265,7 @@ def run(tier, seed):
     chk.add_tlc(r, 'Dedup', cfg, ACTIONS)
     sensitivity(chk)
     cases = common.gen('DedupGen', 'DedupGen' if full else 'DedupGenq')
-    profiles = ['ints', 'mixed', 'text', 'compound', 'equalreps'] if full else ['ints', 'mixed', 'equalreps']
+    profiles = ['ints', 'mixed', 'text', 'compound', 'equalreps', 'collide'] if full else ['ints', 'mixed', 'equalreps', 'collide']
     check_cases(chk, cases, profiles, full)
     traces, concrete = record_traces(2500 if full else 300, seed)
     validate_traces(chk, traces, concrete, seed)
